@@ -188,6 +188,22 @@ void random_order(Gen &g) {
   for (size_t i = 0; i < total; i++) g.p.order.push_back((int)g.r.below(g.p.tasks.size()));
 }
 
+// offsets and sizes with a bias towards numeric coincidences (powers of two, one off, the end of the range)
+long interesting(Rng &r, long lo, long hi) {
+  if (hi <= lo) return lo;
+  unsigned w = (unsigned)r.below(10);
+  if (w < 5) return r.range(lo, hi);
+  if (w < 8) {
+    static const long pts[] = {0, 1, 2, 3, 7, 8, 9, 15, 16, 17, 20, 31, 32, 33, 63, 64, 65, 100, 127, 128, 129, 255, 256, 257, 511, 512, 1000, 1023, 1024, 2048, 4095, 4096, 4097, 6000, 8192};
+    for (int tries = 0; tries < 6; tries++) {
+      long v = pts[r.below(sizeof pts / sizeof pts[0])];
+      if (v >= lo && v <= hi) return v;
+    }
+    return r.range(lo, hi);
+  }
+  return std::max(lo, hi - r.range(0, 24));
+}
+
 int rand_fill(Rng &r) {
   static const int f[] = {0x00, 0xFF, 0xCC, -1};
   return f[r.below(4)];
@@ -264,7 +280,7 @@ void gen_c06(Gen &g) {
       mov = 2;
       swap = nobase = 1;
     }
-    long k = internal ? 0 : r.chance(1, 2) ? 0 : r.chance(3, 4) ? r.range(1, 300) : r.range(301, 4096);
+    long k = internal ? 0 : r.chance(1, 2) ? 0 : r.chance(3, 4) ? interesting(r, 1, 300) : interesting(r, 301, 4200);
     long need = k + 15L * (nl + 2) + 64;
     long n = internal ? -1 : std::max<long>(need, r.chance(1, 2) ? 4096 : r.range(256, 8192));
     std::vector<std::string> prog = gen_program(r, nl, r.chance(1, 2) ? 6 : 0, -1);
@@ -347,7 +363,7 @@ void gen_history_task(Gen &g, Task &t, const HistCfg &cfg) {
   long last_c[2] = {0, 0};
   auto create = [&](int slot) {
     bool internal = cfg.allow_internal && r.chance(1, 5);
-    long n = internal ? -1 : r.range(cfg.n_lo, cfg.n_hi);
+    long n = internal ? -1 : interesting(r, cfg.n_lo, cfg.n_hi);
     t.ops.push_back(mk_create(g, slot, n));
     gi[slot].m.reset_created(!internal, internal ? 0 : n);
     if (cfg.opts_at_create && r.coin()) {
@@ -372,6 +388,7 @@ void gen_history_task(Gen &g, Task &t, const HistCfg &cfg) {
     gi[0].m.offset = so.k;
   }
   int nops = (int)r.geom(3, cfg.max_ops, 10);
+  if (r.chance(1, 60)) nops = (int)r.range(70, 140);  // a long life: many calls on the same instance
   int total = cfg.w_asm + cfg.w_count + cfg.w_chunk + cfg.w_offset + cfg.w_setter + cfg.w_debug + cfg.w_other_inst + cfg.w_exec + cfg.w_repeat + cfg.w_file;
   std::vector<std::string> last_prog[2];
   long last_start[2] = {-1, -1};
@@ -541,8 +558,7 @@ void gen_history_task(Gen &g, Task &t, const HistCfg &cfg) {
     if ((w -= cfg.w_offset) < 0) {
       Op o = g.mk(OP_OFFSET, slot);
       long lim = m.external ? m.cap : m.hi;
-      unsigned ow = (unsigned)r.below(10);
-      o.k = ow < 3 ? 0 : ow < 5 ? std::max<long>(0, lim - r.range(0, 24)) : r.range(0, lim);
+      o.k = r.chance(1, 4) ? 0 : interesting(r, 0, lim);
       t.ops.push_back(o);
       m.offset = o.k;
       m.offset_unspec = false;
